@@ -5,7 +5,7 @@
 From Mk Require Import Lib.Bytes Misc.Init.
 
 (* initial state of the target path *)
-Inductive istate := Absent | IsFile | IsDir | IsDangling | IsLinkToFile | NoParent | ParentIsFile.
+Inductive istate := Absent | IsFile | IsDir | IsDangling | IsDanglingIntoDir | IsLinkToFile | NoParent | ParentIsFile.
 
 Record shown := {
   s_packages : list (str * bool);      (* package keys as loaded back, with their effective `all` *)
@@ -30,6 +30,7 @@ Definition fs_of (c : case) : fs := fun q =>
     | IsFile => Some (File (B "old"))
     | IsDir => Some Dir
     | IsDangling => Some (Symlink (B "/nonexistent/x"))
+    | IsDanglingIntoDir => Some (Symlink (B "shared/made-by-link.yml"))   (* the directory exists, the file does not *)
     | IsLinkToFile => Some (Symlink (B "other.file"))
     | _ => None
     end
